@@ -7,13 +7,14 @@ package main
 //   pool=nil: no FixedPool (ordered mode: option == nil; RandomOrder: PMapOption{RandomOrder: true})
 //   hold=1: every call of f waits until as many calls are in progress as the statement allows workers
 //           (min(FixedPool, n), n without pool size), then lingers a data-dependent moment: the maximal number of
-//           concurrent applications is then exactly the number of workers and is printed.
+//           concurrent applications is then exactly the number of workers, so one goroutine too many is seen
+//           deterministically.  (The property bounds the number of goroutines from above only: fewer are permitted.)
 //   hold=2 (only when the bound is n): the application to v waits until all applications to larger values have finished,
 //           i.e. completion order is descending by value whatever the input order.
 //   hold=0: f sleeps a data-dependent time (completion order is a pseudo-random permutation of input order).
 // Observation:  res=[…] once=ok maxc=<k|ok> after=ok      (res sorted in RandomOrder mode)
 //   once   every value was passed to f exactly as often as it occurs in the list, nothing else was passed
-//   maxc   hold=1: the maximum of the concurrency gauge; hold=0: "ok" iff the gauge never exceeded the bound
+//   maxc   "ok" iff the concurrency gauge never exceeded the bound, otherwise its maximum
 //   after  at return no application was in progress, all n had finished, and none happened afterwards
 
 import (
@@ -24,6 +25,7 @@ import (
 	"strconv"
 	"strings"
 	"sync"
+	"sync/atomic"
 	"time"
 
 	fpgo "github.com/TeaEntityLab/fpGo/v2"
@@ -92,6 +94,10 @@ func c16Bound(c *c16Case) int {
 	return c.n
 }
 
+// set once a gate had to give up: the code under test runs fewer goroutines than the bound (permitted by the property);
+// later cases of this process then do not gate at all, so that the run stays fast
+var c16GateBroken atomic.Bool
+
 type c16Mon struct {
 	mu       sync.Mutex
 	inflight int
@@ -139,7 +145,17 @@ func (m *c16Mon) apply(v int) {
 	if m.hold {
 		select {
 		case <-m.open:
-		case <-time.After(5 * time.Second): // fewer goroutines than the bound is allowed by the property: give up waiting
+		case <-time.After(5 * time.Second):
+			// fewer goroutines than the bound is allowed by the property: give up waiting — for this and every later
+			// application (otherwise n applications on too few goroutines would each wait 5 s and the case would be
+			// reported as a hang although PMap is merely slower than the gate expects)
+			c16GateBroken.Store(true)
+			m.mu.Lock()
+			if !m.opened {
+				m.opened = true
+				close(m.open)
+			}
+			m.mu.Unlock()
 		}
 		time.Sleep(time.Duration(20+(v*13)%60) * time.Microsecond)
 	} else {
@@ -176,6 +192,10 @@ func c16Run(line string) string {
 		}
 	}
 	mon := &c16Mon{counts: map[int]int{}, hold: c.hold, bound: c16Bound(c), open: make(chan struct{})}
+	if c16GateBroken.Load() {
+		mon.opened = true
+		close(mon.open)
+	}
 	vals := make([]int, c.n)
 	want := map[int]int{}
 	for i := range vals {
@@ -245,13 +265,10 @@ func c16Run(line string) string {
 	if once != "ok" {
 		once = "bad" // canonical: which element differs depends on map order
 	}
-	maxc := strconv.Itoa(mon.maxc)
-	if !c.hold {
-		if mon.maxc <= mon.bound {
-			maxc = "ok"
-		} else {
-			maxc = "over"
-		}
+	// the property demands "at most bound goroutines at a time": a smaller maximum is fine, a larger one is printed
+	maxc := "ok"
+	if mon.maxc > mon.bound {
+		maxc = strconv.Itoa(mon.maxc)
 	}
 	mon.mu.Unlock()
 	after := "ok"
@@ -309,7 +326,21 @@ func c16Gen(tier string, rng *rand.Rand, emit func(string)) map[string]interface
 			}
 		}
 	}
-	return map[string]interface{}{"exhaustive": false, "scope": fmt.Sprintf("n in 0..%d x FixedPool in {nil,-1,0,1,2,3,5,n-1,n,n+3} x {ordered,RandomOrder} x {hold,free} x %d list seeds; + n<=12 grid over both element types", maxN, seeds),
+	// a few long lists: anything that depends on the size of the list beyond the grid (a buffer or pool size with a fixed
+	// ceiling, chunking) shows only there
+	for _, n := range []int{97, 256, 1000} {
+		for _, p := range []string{"nil", "1", "7", strconv.Itoa(n / 2), strconv.Itoa(n)} {
+			for _, mode := range []string{"o", "r"} {
+				hold := "0"
+				if p != "1" && (n+len(p)+len(mode)+count)%2 == 0 {
+					hold = "1"
+				}
+				emit(fmt.Sprintf("n=%d pool=%s mode=%s ty=%s hold=%s seed=%d", n, p, mode, []string{"i", "s"}[count%2], hold, rng.Intn(1000)))
+				count++
+			}
+		}
+	}
+	return map[string]interface{}{"exhaustive": false, "scope": fmt.Sprintf("n in 0..%d x FixedPool in {nil,-1,0,1,2,3,5,n-1,n,n+3} x {ordered,RandomOrder} x {hold,free} x %d list seeds; + n<=12 grid over both element types + n in {97,256,1000} x 5 pool sizes x both modes", maxN, seeds),
 		"cases": count, "max_n": maxN}
 }
 
